@@ -569,3 +569,199 @@ Proof.
   intros (ra & rb & v & [H|H] & _ & _ & Hv); specialize (Hv 1%N);
     vm_compute in H; inversion H; subst; vm_compute in Hv; discriminate.
 Qed.
+
+(* ------------------------------------------- the statements used by C37.v -- *)
+
+Lemma cas_ok_true :
+  forall old c, cas_ok old c = true <-> (old = None \/ old = Some c).
+Proof.
+  intros [o|] c; cbn [cas_ok]; split.
+  - intro H. apply val_eqb_eq in H. right. congruence.
+  - intros [H|H]; [discriminate|]. inversion H. apply val_eqb_eq. reflexivity.
+  - intro. left. reflexivity.
+  - intro. reflexivity.
+Qed.
+
+Lemma cas_ok_false :
+  forall old c, cas_ok old c = false <-> (exists o, old = Some o /\ o <> c).
+Proof.
+  intros [o|] c; cbn [cas_ok]; split.
+  - intro H. apply val_eqb_neq in H. exists o. split; [reflexivity|]. congruence.
+  - intros (o' & E & N). inversion E; subst. apply val_eqb_neq. congruence.
+  - discriminate.
+  - intros (o' & E & _). discriminate.
+Qed.
+
+Lemma follow_pure_aux_none :
+  forall v f n d rn, follow_pure_aux v f n d = FOk rn None -> v rn = None.
+Proof.
+  intros v f. induction f as [|f IH]; intros n d rn H; simpl in H; [discriminate|].
+  destruct (v n) as [x|] eqn:Ev.
+  - destruct (Nat.ltb 5 (S d)); [discriminate|].
+    destruct x as [s|t]; [discriminate|]. eapply IH. exact H.
+  - inversion H; subst. exact Ev.
+Qed.
+
+Section Statements.
+  Variable valid : name -> bool.
+
+  Theorem set_if_equals_cas :
+    forall st pc n old new,
+      valid n = true -> coherent pc st ->
+      let rn := target (view st) n in
+      let st' := fst (exec valid (OpSet n old new) st pc) in
+      let t' := snd (exec valid (OpSet n old new) st pc) in
+      coherent (tc t') st' /\
+      ((old = None \/ old = Some (cur (view st) rn)) ->
+         res_of t' = Some (RRet true) /\
+         (forall x, view st' x = if N.eqb x rn then Some (VSha new) else view st x) /\
+         (forall x, packed st' x = packed st x)) /\
+      (forall o, old = Some o -> o <> cur (view st) rn ->
+         res_of t' = Some (RRet false) /\ st' = st).
+  Proof.
+    intros st pc n old new Hv Hc rn st' t'. subst st' t'.
+    destruct (exec_set valid st pc n old new Hv Hc) as (pc' & Hc' & E). fold rn in E. rewrite E.
+    destruct (cas_ok old (cur (view st) rn)) eqn:Ek; cbn [fst snd tc].
+    - split; [apply coherent_put; exact Hc'|]. split.
+      + intros _. split; [reflexivity|]. split; [|reflexivity].
+        intro x. unfold put. rewrite view_put. reflexivity.
+      + intros o Ho Hn. exfalso.
+        assert (F : cas_ok old (cur (view st) rn) = false) by (apply cas_ok_false; eauto).
+        congruence.
+    - split; [exact Hc'|]. split.
+      + intro H. apply cas_ok_true in H. congruence.
+      + intros o Ho Hn. split; reflexivity.
+  Qed.
+
+  (* "after following symbolic refs": the name resolves to [s] through its symrefs *)
+  Theorem set_if_equals_follows :
+    forall st pc n old new rn s,
+      valid n = true -> coherent pc st ->
+      follow_pure (view st) n = FOk rn (Some s) ->
+      let st' := fst (exec valid (OpSet n old new) st pc) in
+      let t' := snd (exec valid (OpSet n old new) st pc) in
+      ((old = None \/ old = Some (VSha s)) ->
+         res_of t' = Some (RRet true) /\ follow_pure (view st') n = FOk rn (Some new)) /\
+      (forall o, old = Some o -> o <> VSha s -> res_of t' = Some (RRet false) /\ st' = st).
+  Proof.
+    intros st pc n old new rn s Hv Hc Hf st' t'.
+    destruct (set_if_equals_cas st pc n old new Hv Hc) as (_ & H1 & H2).
+    assert (Ht : target (view st) n = rn) by (unfold target; rewrite Hf; reflexivity).
+    assert (Hcur : cur (view st) rn = VSha s) by (apply (follow_pure_aux_cur _ _ _ _ _ _ Hf)).
+    rewrite Ht, Hcur in H1, H2. fold st' t' in H1, H2.
+    split; [|exact H2].
+    intro Ho. destruct (H1 Ho) as (R & V & _). split; [exact R|].
+    unfold follow_pure.
+    rewrite (follow_pure_aux_ext (view st') (upd (view st) rn (Some (VSha new)))) by (intro x; apply V).
+    eapply follow_pure_aux_after_put. exact Hf.
+  Qed.
+
+  (* ... or to nothing: the expected value for "absent" is ZERO_SHA *)
+  Theorem set_if_equals_absent :
+    forall st pc n old new rn,
+      valid n = true -> coherent pc st ->
+      follow_pure (view st) n = FOk rn None ->
+      let st' := fst (exec valid (OpSet n old new) st pc) in
+      let t' := snd (exec valid (OpSet n old new) st pc) in
+      view st rn = None /\
+      ((old = None \/ old = Some (VSha ZERO_SHA)) ->
+         res_of t' = Some (RRet true) /\ view st' rn = Some (VSha new)) /\
+      (forall o, old = Some o -> o <> VSha ZERO_SHA -> res_of t' = Some (RRet false) /\ st' = st).
+  Proof.
+    intros st pc n old new rn Hv Hc Hf st' t'.
+    destruct (set_if_equals_cas st pc n old new Hv Hc) as (_ & H1 & H2).
+    assert (Ht : target (view st) n = rn) by (unfold target; rewrite Hf; reflexivity).
+    assert (Hcur : cur (view st) rn = VSha ZERO_SHA) by (apply (follow_pure_aux_cur _ _ _ _ _ _ Hf)).
+    rewrite Ht, Hcur in H1, H2. fold st' t' in H1, H2.
+    split; [apply (follow_pure_aux_none _ _ _ _ _ Hf)|]. split; [|exact H2].
+    intro Ho. destruct (H1 Ho) as (R & V & _). split; [exact R|].
+    rewrite V, N.eqb_refl. reflexivity.
+  Qed.
+
+  Theorem remove_if_equals_cas_partial :
+    forall st pc n old,
+      valid n = true -> coherent pc st ->
+      let st' := fst (exec valid (OpRemove n old) st pc) in
+      let t' := snd (exec valid (OpRemove n old) st pc) in
+      coherent (tc t') st' /\
+      ((old = None \/ old = Some (cur (view st) n)) ->
+         res_of t' = Some (RRet true) /\
+         loose st' = upd (loose st) n None /\
+         (forall x, packed st' x =
+                    if remove_warm pc st n old then upd (packed st) n None x else packed st x)) /\
+      (forall o, old = Some o -> o <> cur (view st) n ->
+         res_of t' = Some (RRet false) /\ st' = st).
+  Proof.
+    intros st pc n old Hv Hc st' t'. subst st' t'.
+    destruct (exec_remove valid st pc n old Hv Hc) as (s' & pc' & Hc' & E & H). rewrite E.
+    cbn [fst snd tc res_of ts]. split; [exact Hc'|].
+    destruct (cas_ok old (cur (view st) n)) eqn:Ek.
+    - split.
+      + intros _. destruct H as [Hl Hp]. split; [reflexivity|]. split; assumption.
+      + intros o Ho Hn. exfalso.
+        assert (F : cas_ok old (cur (view st) n) = false) by (apply cas_ok_false; eauto).
+        congruence.
+    - split.
+      + intro Ho. apply cas_ok_true in Ho. congruence.
+      + intros o Ho Hn. split; [reflexivity|exact H].
+  Qed.
+
+  Theorem remove_if_equals_cas_guarded :
+    forall st pc n old,
+      valid n = true -> coherent pc st ->
+      remove_guard pc st (OpRemove n old) = true ->
+      let st' := fst (exec valid (OpRemove n old) st pc) in
+      let t' := snd (exec valid (OpRemove n old) st pc) in
+      coherent (tc t') st' /\
+      ((old = None \/ old = Some (cur (view st) n)) ->
+         res_of t' = Some (RRet true) /\
+         (forall x, view st' x = if N.eqb x n then None else view st x)) /\
+      (forall o, old = Some o -> o <> cur (view st) n ->
+         res_of t' = Some (RRet false) /\ st' = st).
+  Proof.
+    intros st pc n old Hv Hc Hg st' t'.
+    destruct (remove_if_equals_cas_partial st pc n old Hv Hc) as (H0 & H1 & H2).
+    fold st' t' in H0, H1, H2. split; [exact H0|]. split; [|exact H2].
+    intro Ho. destruct (H1 Ho) as (R & Hl & Hp). split; [exact R|].
+    intro x. rewrite (view_remove st st' n Hl); [reflexivity|].
+    intro y. rewrite Hp. cbn [remove_guard] in Hg.
+    destruct (remove_warm pc st n old); [reflexivity|]. cbn [orb] in Hg.
+    unfold upd. destruct (N.eqb y n) eqn:Ey; [|reflexivity].
+    apply N.eqb_eq in Ey. subst y. destruct (packed st n); [discriminate|reflexivity].
+  Qed.
+
+  Theorem add_if_new_never_overwrites :
+    forall st pc n new,
+      coherent pc st ->
+      let st' := fst (exec valid (OpAdd n new) st pc) in
+      let t' := snd (exec valid (OpAdd n new) st pc) in
+      coherent (tc t') st' /\
+      (forall m v, view st m = Some v -> view st' m = Some v) /\
+      (res_of t' = Some (RRet true) ->
+         exists rn, follow_pure (view st) n = FOk rn None /\ valid rn = true /\ view st rn = None /\
+                    forall x, view st' x = if N.eqb x rn then Some (VSha new) else view st x) /\
+      (res_of t' <> Some (RRet true) -> st' = st) /\
+      (forall rn, follow_pure (view st) n = FOk rn None -> valid rn = true ->
+                  res_of t' = Some (RRet true)).
+  Proof.
+    intros st pc n new Hc st' t'. subst st' t'.
+    destruct (exec_add valid st pc n new Hc) as (pc' & Hc' & E). rewrite E.
+    destruct (follow_pure (view st) n) as [rn [s|]|] eqn:Ef; cbn [fst snd tc res_of ts].
+    - split; [exact Hc'|]. split; [auto|]. split; [discriminate|]. split; [reflexivity|].
+      intros rn' H. discriminate.
+    - assert (Hn : view st rn = None) by (apply (follow_pure_aux_none _ _ _ _ _ Ef)).
+      destruct (valid rn) eqn:Hv; cbn [fst snd tc res_of ts].
+      + split; [apply coherent_put; exact Hc'|]. split.
+        * intros m v Hm. unfold put. rewrite view_put. unfold upd.
+          destruct (N.eqb m rn) eqn:Em; [|exact Hm].
+          apply N.eqb_eq in Em. subst m. congruence.
+        * split.
+          -- intros _. exists rn. split; [reflexivity|]. split; [exact Hv|]. split; [exact Hn|].
+             intro x. unfold put. rewrite view_put. reflexivity.
+          -- split; [intro H; congruence|]. intros; reflexivity.
+      + split; [exact Hc'|]. split; [auto|]. split; [discriminate|]. split; [reflexivity|].
+        intros rn' H Hv'. inversion H; subst. congruence.
+    - split; [exact Hc'|]. split; [auto|]. split; [discriminate|]. split; [reflexivity|].
+      intros rn' H. discriminate.
+  Qed.
+End Statements.
